@@ -317,4 +317,22 @@ mod verif_graph {
     #[kani::proof]
     #[kani::unwind(7)]
     fn graph_two_paths_chain() { two_paths_case(true); kani::cover!(true); }
+
+    // an asset reached twice in one pass (two notified entries it read, or a diamond) is listed once:
+    // the second visit of an already listed node must return at once, also for a node nobody depends on
+    // @h name=graph_visit_twice_leaf tier=quick cap=1 timeout=600 mem=30 props=C06,C05 role=asset+reached+through+two+notified+entries
+    #[kani::proof]
+    #[kani::unwind(3)]
+    fn graph_visit_twice_leaf() {
+        let mut g = DepsGraph::new();
+        g.0.insert(adep(0), node_with_rdeps(&[]));
+        let mut sort_data = TopologicalSortData { visited: HashSet::new(), list: Vec::new() };
+        let k = akey(0);
+        g.visit(&mut sort_data, BorrowedDependency::Asset(&k));
+        assert_eq!(sort_data.list.len(), 1);
+        g.visit(&mut sort_data, BorrowedDependency::Asset(&k));
+        assert_eq!(sort_data.list.len(), 1, "an asset reached through two notified entries is rewritten twice in one pass");
+        kani::cover!(true);
+        std::mem::forget((sort_data, k, g));
+    }
 }
